@@ -144,14 +144,24 @@ REENT_SIM_OBJS := $(patsubst %.cc,$(REENTB)/sim/%.o,$(REENT_SIM_SRCS))
 $(REENTB)/sim/%.o: %.cc $(wildcard sim/*.h spec/*.h bindings/*.h engines/reent/*.h engines/reent/*.inc engines/reent/*.txt) Makefile | dirs
 	@mkdir -p $(dir $@)
 	$(CXX) $(SIM_CXXFLAGS) -c $< -o $@
+# a second pair of markers brackets the objects that play the application (generated bindings, hand-written drivers): what a public
+# header makes the CALLER's translation unit contain (static inline functions with static locals) is library code as well
+CMARK_DEFS := -Dverif_repo_text_begin=verif_caller_text_begin -Dverif_repo_data_begin=verif_caller_data_begin -Dverif_repo_bss_begin=verif_caller_bss_begin \
+	-Dverif_repo_text_end=verif_caller_text_end -Dverif_repo_data_end=verif_caller_data_end -Dverif_repo_bss_end=verif_caller_bss_end
+$(REENTB)/cmarker_begin.o: sim/marker_begin.c | dirs
+	@mkdir -p $(REENTB)
+	$(CC) -O1 -fno-common $(CMARK_DEFS) -c $< -o $@
+$(REENTB)/cmarker_end.o: sim/marker_end.c | dirs
+	@mkdir -p $(REENTB)
+	$(CC) -O1 -fno-common $(CMARK_DEFS) -c $< -o $@
 $(REENTB)/marker_begin.o: sim/marker_begin.c | dirs
 	@mkdir -p $(REENTB)
 	$(CC) -O1 -fno-common -c $< -o $@
 $(REENTB)/marker_end.o: sim/marker_end.c | dirs
 	@mkdir -p $(REENTB)
 	$(CC) -O1 -fno-common -c $< -o $@
-$(B)/reent_sim: $(REENTB)/marker_begin.o $(REENT_LIB_OBJS) $(REENTB)/marker_end.o $(REENT_BIND_OBJS) $(REENT_DRV_OBJS) $(REENT_SIM_OBJS)
-	$(CXX) -no-pie -Wl,--wrap=memcpy -Wl,--wrap=memset -Wl,--wrap=memmove $(REENT_WRAPFLAGS) -o $@ $(REENTB)/marker_begin.o $(REENT_LIB_OBJS) $(REENTB)/marker_end.o $(REENT_BIND_OBJS) $(REENT_DRV_OBJS) $(REENT_SIM_OBJS) -lm
+$(B)/reent_sim: $(REENTB)/marker_begin.o $(REENT_LIB_OBJS) $(REENTB)/marker_end.o $(REENTB)/cmarker_begin.o $(REENT_BIND_OBJS) $(REENT_DRV_OBJS) $(REENTB)/cmarker_end.o $(REENT_SIM_OBJS)
+	$(CXX) -no-pie -Wl,--wrap=memcpy -Wl,--wrap=memset -Wl,--wrap=memmove $(REENT_WRAPFLAGS) -o $@ $(REENTB)/marker_begin.o $(REENT_LIB_OBJS) $(REENTB)/marker_end.o $(REENTB)/cmarker_begin.o $(REENT_BIND_OBJS) $(REENT_DRV_OBJS) $(REENTB)/cmarker_end.o $(REENT_SIM_OBJS) -lm
 reent: $(B)/reent_sim
 
 # ---------------------------------------------------------------- second build of the library: the repository's default toolchain (gcc)
@@ -182,8 +192,8 @@ REENTG_SIM_OBJS := $(patsubst %.cc,$(GLIBB)/reent/%.o,$(REENT_SIM_SRCS))
 $(GLIBB)/reent/%.o: %.cc $(wildcard sim/*.h spec/*.h bindings/*.h engines/reent/*.h engines/reent/*.inc engines/reent/*.txt) Makefile | dirs
 	@mkdir -p $(dir $@)
 	$(CXX) $(SIM_CXXFLAGS) -DREENT_VARIANT_GCC=1 -c $< -o $@
-$(B)/reentg_sim: $(REENTB)/marker_begin.o $(GCCT_LIB_OBJS) $(REENTB)/marker_end.o $(GCC_BIND_OBJS) $(GCC_DRV_OBJS) $(REENTG_SIM_OBJS)
-	$(CXX) -no-pie -Wl,--wrap=memcpy -Wl,--wrap=memset -Wl,--wrap=memmove $(REENT_WRAPFLAGS) -o $@ $(REENTB)/marker_begin.o $(GCCT_LIB_OBJS) $(REENTB)/marker_end.o $(GCC_BIND_OBJS) $(GCC_DRV_OBJS) $(REENTG_SIM_OBJS) -lm
+$(B)/reentg_sim: $(REENTB)/marker_begin.o $(GCCT_LIB_OBJS) $(REENTB)/marker_end.o $(REENTB)/cmarker_begin.o $(GCC_BIND_OBJS) $(GCC_DRV_OBJS) $(REENTB)/cmarker_end.o $(REENTG_SIM_OBJS)
+	$(CXX) -no-pie -Wl,--wrap=memcpy -Wl,--wrap=memset -Wl,--wrap=memmove $(REENT_WRAPFLAGS) -o $@ $(REENTB)/marker_begin.o $(GCCT_LIB_OBJS) $(REENTB)/marker_end.o $(REENTB)/cmarker_begin.o $(GCC_BIND_OBJS) $(GCC_DRV_OBJS) $(REENTB)/cmarker_end.o $(REENTG_SIM_OBJS) -lm
 reent: $(B)/reentg_sim
 RECG_SIM_OBJS := $(patsubst %.cc,$(GLIBB)/rec/%.o,$(REC_SIM_SRCS))
 $(GLIBB)/rec/%.o: %.cc $(wildcard sim/*.h spec/*.h bindings/*.h) Makefile | dirs
@@ -210,8 +220,8 @@ REENTO_SIM_OBJS := $(patsubst %.cc,$(REENTO)/sim/%.o,$(REENT_SIM_SRCS))
 $(REENTO)/sim/%.o: %.cc $(wildcard sim/*.h spec/*.h bindings/*.h engines/reent/*.h engines/reent/*.inc engines/reent/*.txt) Makefile | dirs
 	@mkdir -p $(dir $@)
 	$(CXX) $(SIM_CXXFLAGS) -DREENT_VARIANT_O2=1 -c $< -o $@
-$(B)/reento_sim: $(REENTB)/marker_begin.o $(REENTO_LIB_OBJS) $(REENTB)/marker_end.o $(REENT_BIND_OBJS) $(REENT_DRV_OBJS) $(REENTO_SIM_OBJS)
-	$(CXX) -no-pie -Wl,--wrap=memcpy -Wl,--wrap=memset -Wl,--wrap=memmove $(REENT_WRAPFLAGS) -o $@ $(REENTB)/marker_begin.o $(REENTO_LIB_OBJS) $(REENTB)/marker_end.o $(REENT_BIND_OBJS) $(REENT_DRV_OBJS) $(REENTO_SIM_OBJS) -lm
+$(B)/reento_sim: $(REENTB)/marker_begin.o $(REENTO_LIB_OBJS) $(REENTB)/marker_end.o $(REENTB)/cmarker_begin.o $(REENT_BIND_OBJS) $(REENT_DRV_OBJS) $(REENTB)/cmarker_end.o $(REENTO_SIM_OBJS)
+	$(CXX) -no-pie -Wl,--wrap=memcpy -Wl,--wrap=memset -Wl,--wrap=memmove $(REENT_WRAPFLAGS) -o $@ $(REENTB)/marker_begin.o $(REENTO_LIB_OBJS) $(REENTB)/marker_end.o $(REENTB)/cmarker_begin.o $(REENT_BIND_OBJS) $(REENT_DRV_OBJS) $(REENTB)/cmarker_end.o $(REENTO_SIM_OBJS) -lm
 reent: $(B)/reento_sim
 
 # ---------------------------------------------------------------- third build for C05: no optimisation at all (what the repository's CMake does when no build type is given)
